@@ -64,7 +64,20 @@ class PathCtx:
         self.solver_s += time.time() - t0
         self.queries += 1
         if r == z3.unknown:
-            raise Unsupported("solver returned unknown: " + self.solver.reason_unknown())
+            # one retry on a fresh solver with a 6x longer limit before giving up on the path
+            s2 = z3.Solver()
+            s2.set("timeout", 180000)
+            for c in self.pc:
+                s2.add(bl(c))
+            t0 = time.time()
+            r = s2.check(*extra)
+            self.solver_s += time.time() - t0
+            self.queries += 1
+            if r == z3.unknown:
+                raise Unsupported("solver returned unknown: " + s2.reason_unknown())
+            if r == z3.sat:
+                self.last_model = s2.model()
+            return r == z3.sat
         if r == z3.sat:
             self.last_model = self.solver.model()
         return r == z3.sat
